@@ -11,21 +11,48 @@
 (***************************************************************************)
 EXTENDS Integers, FiniteSets, TLC
 
-CONSTANTS Clients, MaxOps, Dev
+\* (the @type comments are for Apalache, which proves the safety invariant inductive for histories of any length: PauseApa.tla)
+CONSTANTS
+  \* @type: Set(Str);
+  Clients,
+  \* @type: Int;
+  MaxOps,
+  \* @type: Set(Str);
+  Dev
 \* Dev: "read_before_register"  - wait_paused loads the flag before creating the Notified future
 \*      "notify_before_store"   - resume() notifies before clearing the flag
 \*      "recreated_pool_forgets_pause" - a pool re-created by RELOAD starts unpaused with a fresh Notify
 
-VARIABLES obj,       \* current pool object id (changes when RELOAD re-creates the pool)
-          paused,    \* object id -> flag
-          gen,       \* object id -> Notify generation
-          pc,        \* client -> "idle" | "created" | "read" | "await" | "go" | "done"
-          cobj,      \* client -> pool object it resolved for this transaction
-          cap,       \* client -> captured generation
-          saw,       \* client -> flag value it read
-          rpc,       \* admin RESUME in progress: "none" | "stored" (deviation: "notified")
-          nops,
-          started    \* client -> it reached the checkout of a transaction while the CURRENT pool was paused (monitor)
+VARIABLES
+  \* current pool object id (changes when RELOAD re-creates the pool)
+  \* @type: Int;
+  obj,
+  \* object id -> flag
+  \* @type: Int -> Bool;
+  paused,
+  \* object id -> Notify generation
+  \* @type: Int -> Int;
+  gen,
+  \* client -> "idle" | "start" | "created" | "read" | "await" | "go"
+  \* @type: Str -> Str;
+  pc,
+  \* client -> pool object it resolved for this transaction
+  \* @type: Str -> Int;
+  cobj,
+  \* client -> captured generation
+  \* @type: Str -> Int;
+  cap,
+  \* client -> flag value it read
+  \* @type: Str -> Bool;
+  saw,
+  \* admin RESUME in progress: "none" | "half"
+  \* @type: Str;
+  rpc,
+  \* @type: Int;
+  nops,
+  \* client -> it reached the checkout of a transaction while the CURRENT pool was paused (monitor)
+  \* @type: Set(Str);
+  started
 
 vars == <<obj, paused, gen, pc, cobj, cap, saw, rpc, nops, started>>
 Objs == 0..2
